@@ -5,6 +5,8 @@
 #[cfg(kani)]
 mod util;
 #[cfg(kani)]
+mod c01;
+#[cfg(kani)]
 mod c14;
 #[cfg(kani)]
 mod c15;
